@@ -35,7 +35,7 @@ GROUPS.append(dict(name='write_extension_lacing', cls='F', tu='C16_write_payload
     bounds='one long extension (id 32..127), every payload length 0..1100 (lacing loop <= 4 iterations, unwound completely), any buffer size <= 1200, last or not',
     what='length lacing of a long extension as written by the generator primitive and as read back by the parser primitive'))
 
-META = {'enforced_elsewhere': ['skip_extension_payload'],
+META = {'enforced_elsewhere': ['skip_extension_payload', 'skip_extension', 'opus_extension_iterator_next'],
         'cex': {'tu': 'C16_roundtrip.c', 'entry': 'h_ext_arbitrary', 'unwind': 7, 'defines': ['-DVERIF_RAW=4', '-DVERIF_RAW_NF=2'], 'timeout': 1200}}
 for (_c, _cap, _tier, _sfx) in ((1, 600, 'quick', ''), (1, 1100, 'thorough', '_full'), (2, 1100, 'thorough', '')):
     GROUPS.append(dict(name='out_range_ext_c%d%s' % (_c, _sfx), cls='F' if _cap == 1100 else 'B', tu='C16_out_range_ext.c', entry='h_out_range_ext', dfcc=False, canary='real', expect_canaries=1, unwind=16, timeout=3600, mem_gb=20, tier=_tier,
@@ -44,3 +44,12 @@ for (_c, _cap, _tier, _sfx) in ((1, 600, 'quick', ''), (1, 1100, 'thorough', '_f
         trusted=['stub of opus_packet_extensions_generate (reports a symbolic size <= %d, records where it writes); frame-only memmove stub' % _cap],
         bounds='%d frame(s) of 0..300 bytes, serialised extensions of any size 1..%d bytes (covers the 254/255/509/510%s boundaries), any maxlen, no extra padding requested' % (_c, _cap, '/763/1020' if _cap == 1100 else ''),
         what='placement of the serialised extensions inside the output packet: exactly the tail of the padding area as the real parser sees it, preceded by 0x01 fill'))
+
+GROUPS.append(dict(name='iterator_next', cls='P', tu='C16_iter.c', entry='h_iter_next', enforce_rec=['opus_extension_iterator_next'], replace=['skip_extension', 'skip_extension_payload'],
+    timeout=2400, mem_gb=24, cbmc_flags=['--object-bits', '12'],
+    assumptions=['the hardening assertion celt_assert(iter->src_len >= 0) ("we skipped this extension earlier") is modelled as a non-returning call without obligation in this group (content-dependent); it is an obligation in the bounded round-trip groups'],
+    what='opus_extension_iterator_next (recursive, three loops under loop contracts): representation invariant preserved, result 0 / 1 / OPUS_INVALID_PACKET, a reported extension lies inside the padding, belongs to a frame below nb_frames and frame_max, short ids carry at most one byte; reads only the padding'))
+
+GROUPS.append(dict(name='extensions_parse_p', cls='P', tu='C16_parse_p.c', entry='h_ext_parse_p', replace=['opus_extension_iterator_next'], canary='real', expect_canaries=2,
+    timeout=1800, mem_gb=20, cbmc_flags=['--object-bits', '12'], functions=['opus_packet_extensions_parse', 'opus_extension_iterator_init'],
+    what='opus_packet_extensions_parse on any bytes, any length, any capacity (loop contract; iterator_next by its contract, iterator_init real = base case of the iterator invariant): writes extensions[0..capacity) only, count <= capacity, every reported extension inside the padding and for an existing frame'))
